@@ -62,6 +62,7 @@ def handlers : List (String × (Json → Except String Json)) := [
   ("C01.add_csr", Qv.Drv.C01.addCsrJ),
   ("C01.transpose_csr", Qv.Drv.C01.transposeCsrJ),
   ("C01.kron_csr", Qv.Drv.C01.kronCsrJ),
+  ("C01.matmul_csr", Qv.Drv.C01.matmulCsrJ),
   ("C01.dia_abs", Qv.Drv.C01.diaAbsJ),
   ("C01.dia_of_dense", Qv.Drv.C01.diaOfDenseJ)
 ]
